@@ -350,6 +350,10 @@ def run_case(case):
         # survey coordinates as input, including the survey poles
         lam = np.clip(np.where(rng.random(n) < .4, ring(rng, n)[1], rng.uniform(-90, 90, size=n)), -90, 90)
         eta = rng.uniform(-180, 180, size=n)
+        if rng.random() < .3:
+            # the ends of the documented input ranges themselves
+            eta = np.where(rng.random(n) < .5, rng.choice([-180.0, 180.0, 0.0, -0.0], size=n), eta)
+            lam = np.where(rng.random(n) < .3, rng.choice([-90.0, 90.0, 0.0], size=n), lam)
         probe.attempt(co.sdss2eq, lam, eta)
         return
     if fam == "xyz":
